@@ -317,12 +317,18 @@ def extra_c19(tier, seed):
     for idx, prof, raw, blog in results:
         if raw and os.path.exists(raw):
             os.remove(raw)
+    # a large machine built with and without a feature the program never uses: the two builds must behave identically, event by
+    # event, including the user state kept in the state objects (CrossTrace "feat" mode)
+    wide = _feature_twins(wd, tier)
+    out["findings"] += wide["findings"]
+    out["infra"] += wide["infra"]
     # the shipped single header must be exactly what tools/join.py produces from the development sources
     amalg = _amalgamation_identical()
     if amalg is False:
         out["findings"].append({"what": "include/ffsm2/machine.hpp differs from the amalgamation of development/ produced by tools/join.py",
                                 "signature": "amalgamation differs", "replay": ""})
     out["coverage"] = {"traces_validated_against_impl": validated, "switch_combinations_built": len(combos), "compile_failures": len(failed),
+                       "feature_twins": wide["coverage"],
                        "compilers": sorted({c[1] for c in combos}), "standards": sorted({c[2] for c in combos}),
                        "spec_constant_groups": len(groups), "amalgamation_identical": amalg,
                        "samples": [{"combination": {"switches": c[0], "compiler": c[1], "std": c[2]}} for c in combos[:4]],
@@ -330,6 +336,64 @@ def extra_c19(tier, seed):
     with open(rfile, "w") as f:
         json.dump(out, f, indent=1)
     _prune(os.path.join(vlib.WORK, "matrix"))
+    return out
+
+
+def _wide_program(n):
+    ls = ["reset", "@0 ctor 0 1 0", "@0 enter"]
+    for k in list(range(1, n)) + [0]:           # leave every state once
+        ls.append("@0 ito %d" % k)
+    for k in range(min(n, 12)):                 # then visit the first states again: their user state is reported in their callbacks
+        ls += ["@0 ito %d" % k, "@0 update", "@0 react 1"]
+    ls += ["@0 exit", "@0 enter", "@0 update | 5.0.0:T%d" % (n - 1), "@0 update", "@0 exit"]
+    return "\n".join(ls) + "\n"
+
+
+def _feature_twins(wd, tier):
+    import pool
+    out = {"findings": [], "infra": [], "coverage": []}
+    pairs = [(250, "", "P")] + ([] if tier == "quick" else [(255, "", "PSH"), (129, "S", "PS"), (250, "G", "PG")])
+
+    def build_run(job):
+        n, feat, tag = job
+        prof = dict(N=n, L=2, cap=0, head=1, manual=1, pay=0, ctx=0, feat=feat)
+        bdir = vlib.ensure(os.path.join(wd, "w%s" % tag))
+        try:
+            exe, blog = _build_tmp("w%s" % tag, prof, bdir)
+            if exe is None:
+                return tag, None, blog
+            raw = os.path.join(wd, "w%s.raw.ndjson" % tag)
+            vlib.run_harness(exe, _wide_program(n), raw, timeout=120)
+        finally:
+            shutil.rmtree(bdir, ignore_errors=True)
+        return tag, raw, ""
+    jobs = []
+    for idx, (n, fa, fb) in enumerate(pairs):
+        jobs += [(n, fa, "%da" % idx), (n, fb, "%db" % idx)]
+    res = {}
+    with ThreadPoolExecutor(max_workers=4) as ex:
+        for tag, raw, blog in ex.map(build_run, jobs):
+            res[tag] = (raw, blog)
+    for idx, (n, fa, fb) in enumerate(pairs):
+        (ra, la), (rb, lb) = res["%da" % idx], res["%db" % idx]
+        if ra is None or rb is None:
+            out["findings"].append({"what": "a %d-state machine does not compile with switches [%s] / [%s]: %s" % (n, fa, fb, (la or lb)[-300:].replace("\n", " ")),
+                                    "signature": "compile wide %d [%s][%s]" % (n, fa, fb), "replay": ""})
+            continue
+        tw = os.path.join(wd, "twin%d.ndjson" % idx)
+        pool.write_twin_trace(ra, rb, tw, mark="feat")
+        x = vlib.validate_cross(tw, "feat%d" % idx)
+        events = sum(1 for _ in open(tw))
+        out["coverage"].append({"states": n, "without": fa, "with": fb, "events": events, "identical": not x["findings"] and not x["error"]})
+        if x["error"]:
+            out["infra"].append("TLC failed on the feature twins: " + x["error"][-400:])
+        for (prop, ln, why) in x["findings"]:
+            if prop == "C19":
+                out["findings"].append({"what": "%d states, switches [%s] vs [%s], line %d: %s (trace %s)" % (n, fa, fb, ln, why, tw),
+                                        "signature": "feature twins %d [%s][%s]" % (n, fa, fb), "replay": tw})
+        for r in (ra, rb):
+            if os.path.exists(r):
+                os.remove(r)
     return out
 
 
